@@ -13,25 +13,26 @@ COQ_TARGETS = ['theories/Properties/C12.vo', 'theories/Extract/RunC12.vo']
 DESIGN_REF = 'DESIGN.md section 6, C12'
 TECHNIQUE = ('Coq proof (any formally real commutative ring, in particular R and Q; the mode family is abstract): '
              'uniqueness of the least-squares solution for an independent family, fit(compose c) = c, remove = '
-             'projection (fit of the residual vanishes, idempotent, span -> 0), linearity of fit, soundness of the '
-             'validated Gauss solver + execution of the extracted model on exact rationals (the float samples of the '
-             'modes as integer ratios) against lentil.zernike_fit / zernike_compose / zernike_remove')
+             'projection (fit of the residual vanishes, idempotent, span -> 0), linearity of fit, soundness AND totality of '
+             'the validated Gauss solver on independent families + execution of the extracted model on exact rationals '
+             '(the float samples of the modes as integer ratios) against lentil.zernike_fit / zernike_compose / zernike_remove')
 LEVEL_TEXT = ('Theorems in coq/theories/Properties/C12.v for every mask, every list of modes (any subset, any order), both '
               'normalisation flags, default or caller-supplied coordinates and every coefficient vector, under linear '
               'independence of the masked modes: fit(compose(c)) = c, remove = least-squares projection (residual fits to 0, '
               'idempotent, span -> 0, untouched outside the mask), fit linear, uniqueness of the least-squares solution. The '
               'model follows zernike.py (mask factor, coefficient k <-> Noll k+1, reshape/ravel, keyword passing and '
-              're-composition with the requested modes in zernike_remove) and is run on the same mode samples as lentil on '
-              'every check; numpy pinv is replaced by a Gauss solver whose answer is checked against the normal equations '
-              'inside the model (soundness proved; statements about the executed instance are conditional on it returning).')
+              're-composition with the requested modes in zernike_remove, the (rho, theta) argument forms) and is run on the '
+              'same mode samples as lentil on every check; numpy pinv is replaced by a Gauss solver with pivot search whose '
+              'answer is checked against the normal equations inside the model; the solver is proved sound and TOTAL on '
+              'independent families (Lib/GaussTotal.v), so the statements about the executed instance are unconditional.')
 LEVEL_NOTE = ('Trusted: Coq kernel, extraction, harness; np.linalg.pinv and einsum are oracles with the contract "returns '
-              'the least-squares solution" (observed through the tie, tolerance 1e-8 relative, Gram condition number '
-              'bounded by the generator); the Zernike polynomials themselves are property C11 (here: any family). '
-              'Existence of the solution under independence is not proved in Coq (the solver is run, and validated, on every case).')
+              'the least-squares solution, always" (observed through the tie, tolerance 1e-8 relative, Gram condition number '
+              'bounded by the generator); the Zernike polynomials themselves are property C11 (here: any family).')
 TRUSTED = ['Coq 8.16.1 kernel (coqc; coqchk in the thorough tier)',
            'extraction with ExtrOcamlBasic only; ocaml/driver.ml',
            'harness/props/c12.py: codec, evaluation of the unmasked mode samples through lentil.zernike(ones, j, ...), '
-           'float.as_integer_ratio, the condition-number filter',
+           'float.as_integer_ratio, the condition-number filter, the translation of argument forms (layout, container, dtype) '
+           'into the values the model receives',
            'numpy: np.linalg.pinv + einsum (contract: least-squares solution), float rounding (tolerance 1e-8 relative)',
            'the abstract primitives of Model/ZernikeFit.v: zpoly (mode samples), is0 (bool cast of the mask), solve']
 ASSUMPTIONS = ['masks <= 16x16, modes subsets of Noll 1..15 (<= 15 modes), cond(masked basis) <= 1e3 (Gram <= 1e6): '
@@ -55,6 +56,11 @@ RULE = ('masks: circle (centred/off-centre), hexagon (both orientations, shifted
         'normalize, a copy / a rescaled copy of the mask, the same buffer refilled in place with another support, the '
         'order of the modes, the function called), every call compared with the model (= the answer of a fresh '
         'process) and with numpy lstsq on the modes of that call; '
+        'ARGUMENT FORMS (45 % of the single-call cases + corpus/c12/argument_forms.json): mask / opd as Fortran-ordered, '
+        'strided or negatively strided views or nested lists, opd as float32 or integer array, modes as tuple / ndarray '
+        '(int64, int32, uint8) / scalar / 0-d array, coefficients as tuple / ndarray, rho without theta (ValueError) and '
+        'theta without rho (default coordinates; a ValueError is accepted too); repeated modes (dependent family, '
+        'minimum-norm pinv): oracle only; '
         'non-trivial = at least 2 modes or a non-contiguous set, and the mask does not fill the array')
 
 TOL = 1e-8
@@ -133,13 +139,24 @@ def prep(c):
         return _prep_cache[key]
     lentil = C.import_lentil()
     mask = mask_np(c)
+    forms = c.get('forms') or {}
     rho, theta = coords(c, mask)
     nrm = bool(c.get('nrm', True))
     scale = fr(c.get('scale', 1))
-    p = {'mask': mask, 'rho': rho, 'theta': theta, 'nrm': nrm}
+    # (rho_arg, theta_arg): what the call receives; (rho, theta): the coordinates that call MEANS
+    cf = forms.get('crd_form', 'both')
+    rho_arg, theta_arg = rho, theta
+    if rho is not None and cf == 'rho_only':
+        theta_arg = None                  # zernike() raises ValueError
+    elif rho is not None and cf == 'theta_only':
+        rho_arg, rho, theta = None, None, None      # a lone theta is dropped: default coordinates
+    p = {'mask': mask, 'rho': rho, 'theta': theta, 'nrm': nrm, 'rho_arg': rho_arg, 'theta_arg': theta_arg,
+         'mask_arg': container(layout(mask, forms.get('mask_layout')), forms.get('mask_container')),
+         'modes_arg': modes_form(c['modes'], forms.get('modes_form'))}
     w = [float(x * scale) for x in scatter(c['modes'], c['coeffs'], c.get('extra'))]
     if c['op'] == 'compose':
         p['w'] = w
+        p['w_arg'] = {'tuple': tuple(w), 'ndarray': np.array(w, dtype=float)}.get(forms.get('coeffs_form'), w)
     else:
         # the OPD is composed from coefficients that already carry the scale (nanometres in metres, ...)
         y = np.asarray(lentil.zernike_compose(mask, w, c.get('ynrm', True), rho, theta), dtype=float)
@@ -149,11 +166,51 @@ def prep(c):
             y = np.ascontiguousarray(y.T)
         elif c.get('opd_shape') == 'short':
             y = y[:-1]
-        p['y'] = y
+        if forms.get('opd_dtype') == 'float32':
+            y = y.astype(np.float32)
+        elif forms.get('opd_dtype') == 'int':
+            y = np.rint(y * 8).astype(np.int64)
+        p['y_arg'] = container(layout(y, forms.get('opd_layout')), forms.get('opd_container'))
+        p['y'] = np.asarray(y, dtype=float)      # the same values, as the model receives them
     _prep_cache[key] = p
     if len(_prep_cache) > 4000:
         _prep_cache.pop(next(iter(_prep_cache)))
     return p
+
+
+def layout(a, kind):
+    """the same values in another memory layout"""
+    if kind == 'F':
+        return np.asfortranarray(a)
+    if kind == 'strided':
+        big = np.zeros((2 * a.shape[0] + 1, 3 * a.shape[1] + 2), dtype=a.dtype)
+        big[1::2, 2::3] = a
+        return big[1::2, 2::3]
+    if kind == 'reversed':
+        return np.ascontiguousarray(a[::-1, ::-1])[::-1, ::-1]
+    return a
+
+
+def container(a, kind):
+    return a.tolist() if kind == 'list' else a
+
+
+def modes_form(modes, kind):
+    """the documented 'array_like': list, tuple, ndarray of any integer dtype, a scalar for a single mode"""
+    modes = list(modes)
+    if kind == 'tuple':
+        return tuple(modes)
+    if kind == 'ndarray':
+        return np.array(modes, dtype=int)
+    if kind == 'int32':
+        return np.array(modes, dtype=np.int32)
+    if kind == 'uint8' and all(j >= 0 for j in modes):
+        return np.array(modes, dtype=np.uint8)
+    if kind == 'scalar' and len(modes) == 1:
+        return modes[0]
+    if kind == 'scalar0d' and len(modes) == 1:
+        return np.array(modes[0])
+    return modes
 
 
 def mode_samples(p, j, nrm):
@@ -516,7 +573,43 @@ def generate(rng, tier):
             elif e < 0.07:
                 c['opd_shape'] = 'short'
                 c['expect_error'] = True
-        if not c.get('expect_error') and not well_conditioned(dict(c, modes=[j for j in c['modes'] if j >= 1])):
+        # ---- argument forms: the same call written differently (layout, container, dtype, coordinate arguments)
+        forms = {}
+        if rng.random() < 0.45:
+            if rng.random() < 0.5:
+                forms['mask_layout'] = rng.choice(['F', 'strided', 'reversed'])
+            if op != 'compose' and rng.random() < 0.5:
+                forms['opd_layout'] = rng.choice(['F', 'strided', 'reversed'])
+            if rng.random() < 0.25:
+                forms['mask_container'] = 'list'
+            if op != 'compose' and rng.random() < 0.25:
+                forms['opd_container'] = 'list'
+            if rng.random() < 0.5:
+                forms['modes_form'] = rng.choice(['tuple', 'ndarray', 'int32', 'uint8']
+                                                 + (['scalar', 'scalar0d', 'scalar'] if len(c['modes']) == 1 else []))
+            if op == 'compose' and rng.random() < 0.5:
+                forms['coeffs_form'] = rng.choice(['tuple', 'ndarray'])
+            if op != 'compose' and not c.get('scale') and not c.get('opd_shape') and rng.random() < 0.3:
+                forms['opd_dtype'] = rng.choice(['float32', 'int'])
+        if c.get('crd') and rng.random() < 0.12:
+            forms['crd_form'] = rng.choice(['rho_only', 'theta_only'])
+            if forms['crd_form'] == 'rho_only':
+                c['expect_error'] = True
+        if forms:
+            c['forms'] = forms
+            STATS['with_argument_forms'] = STATS.get('with_argument_forms', 0) + 1
+        # ---- a repeated mode: the family is dependent, pinv returns the minimum-norm solution; decided by the oracle only
+        if op != 'compose' and not c.get('expect_error') and not c.get('opd_shape') and rng.random() < 0.04:
+            distinct = list(c['modes'])
+            if not well_conditioned(dict(c, modes=distinct)):
+                STATS['skipped_ill_conditioned'] += 1
+                continue
+            pos = rng.randrange(len(distinct) + 1)
+            c['modes'] = distinct[:pos] + [rng.choice(distinct)] + distinct[pos:]
+            c['coeffs'] = c['coeffs'][:pos] + [rnd_frac(rng)] + c['coeffs'][pos:]
+            c['dependent'] = True
+            STATS['dependent_oracle_only'] = STATS.get('dependent_oracle_only', 0) + 1
+        elif not c.get('expect_error') and not well_conditioned(dict(c, modes=[j for j in c['modes'] if j >= 1])):
             STATS['skipped_ill_conditioned'] += 1
             continue
         out += 1
@@ -534,6 +627,7 @@ def classify(c):
     k = len(c['modes'])
     kb = '1' if k == 1 else '2-4' if k <= 4 else '5-9' if k <= 9 else '10-15'
     return (f"{c['op']}/{c.get('mask_kind', '?')}:{c.get('mask_dtype', 'float')}/{crd}/k={kb}" + ('/error' if c.get('expect_error') else '')
+            + ('/forms' if c.get('forms') else '') + ('/dependent' if c.get('dependent') else '')
             + ('/oracle-only' if not c.get('_corpus') and model_cost(c) > MODEL_BUDGET_S[_tier[0]] else ''))
 
 
@@ -577,6 +671,8 @@ def enc_table(p, entries, crdflag):
 def encode(c):
     if not c.get('_corpus') and model_cost(c) > MODEL_BUDGET_S[_tier[0]]:
         return None
+    if c.get('dependent'):
+        return None       # repeated modes: a dependent family is outside the solver contract; the oracle decides
     try:
         if c['op'] == 'history':
             out = [4, len(c['steps'])]
@@ -591,20 +687,22 @@ def encode(c):
 
 
 def encode_prepared(c, p):
-    crdflag = 1 if c.get('crd') else 0
+    cform = (c.get('forms') or {}).get('crd_form', 'both')
+    crdarg = 0 if not c.get('crd') else {'both': 1, 'rho_only': 2, 'theta_only': 3}[cform]
+    crdflag = 1 if crdarg == 1 else 0          # the table holds the modes in the coordinates the call means
     modes = list(c['modes'])
     good = sorted({j for j in modes if j >= 1})
     if c['op'] == 'compose':
         w = p['w']
         tbl = enc_table(p, [(p['nrm'], j) for j in range(1, len(w) + 1)], crdflag)
-        return [2] + enc_mask(c) + C.enc_list(w, lambda x: C.enc_q(float(x))) + [1 if p['nrm'] else 0, crdflag] + tbl
+        return [2] + enc_mask(c) + C.enc_list(w, lambda x: C.enc_q(float(x))) + [1 if p['nrm'] else 0, crdarg] + tbl
     if c['op'] == 'fit':
         tbl = enc_table(p, [(p['nrm'], j) for j in good], crdflag)
         return ([1] + enc_arr(p['y']) + enc_mask(c) + C.enc_list(modes, lambda x: [x])
-                + [1 if p['nrm'] else 0, crdflag] + tbl)
+                + [1 if p['nrm'] else 0, crdarg] + tbl)
     if c['op'] == 'remove':
         tbl = enc_table(p, [(True, j) for j in good], crdflag)
-        return [3] + enc_arr(p['y']) + enc_mask(c) + C.enc_list(modes, lambda x: [x]) + [crdflag] + tbl
+        return [3] + enc_arr(p['y']) + enc_mask(c) + C.enc_list(modes, lambda x: [x]) + [crdarg] + tbl
     return None
 
 
@@ -633,12 +731,13 @@ def run_impl(c):
     if c['op'] == 'history':
         return run_history(c)
     lentil = C.import_lentil()
-    modes = list(c['modes'])
     try:
         p = prep(c)
-        mask, rho, theta, nrm = p['mask'], p['rho'], p['theta'], p['nrm']
+        # mask / modes / rho / theta: exactly the objects of the case's argument forms
+        mask, modes, rho, theta, nrm = p['mask_arg'], p['modes_arg'], p['rho_arg'], p['theta_arg'], p['nrm']
+        outside = p['mask'] == 0
         if c['op'] == 'compose':
-            opd = lentil.zernike_compose(mask, p['w'], nrm, rho, theta)
+            opd = lentil.zernike_compose(mask, p['w_arg'], nrm, rho, theta)
             res = {'arr': np.asarray(opd, dtype=float)}
             try:    # the round trips of the property, on the implementation alone
                 res['hom'] = np.asarray(lentil.zernike_compose(mask, [x * HOM for x in p['w']], nrm, rho, theta), dtype=float)
@@ -648,25 +747,27 @@ def run_impl(c):
                 res['roundtrip_err'] = type(e).__name__
             return res
         y = p['y']
-        y0 = y.copy()
+        ya = p['y_arg']
+        y0 = np.array(ya, copy=True)
         s = float(np.max(np.abs(y))) if y.size and np.any(y) else 1.0
         if c['op'] == 'fit':
-            cf = np.asarray(lentil.zernike_fit(y, mask, modes, nrm, rho, theta), dtype=float)
+            cf = np.asarray(lentil.zernike_fit(ya, mask, modes, nrm, rho, theta), dtype=float)
             res = {'coeffs': cf}
             if not c.get('opd_shape'):
                 y2 = np.fliplr(y) * 0.5 + s
                 res['fit_y2'] = np.asarray(lentil.zernike_fit(y2, mask, modes, nrm, rho, theta), dtype=float)
                 res['fit_comb'] = np.asarray(lentil.zernike_fit(3.0 * y + y2, mask, modes, nrm, rho, theta), dtype=float)
-                junk = y + (mask == 0) * 7.25 * s
+                junk = y + outside * 7.25 * s
                 res['fit_junk'] = np.asarray(lentil.zernike_fit(junk, mask, modes, nrm, rho, theta), dtype=float)
+            res['input_changed'] = not np.array_equal(np.asarray(ya), y0)
             return res
         if c['op'] == 'remove':
-            r = np.asarray(lentil.zernike_remove(y, mask, modes, rho=rho, theta=theta), dtype=float)
+            r = np.asarray(lentil.zernike_remove(ya, mask, modes, rho=rho, theta=theta), dtype=float)
             res = {'arr': r}
             res['fit_res'] = np.asarray(lentil.zernike_fit(r, mask, modes, True, rho, theta), dtype=float)
             res['again'] = np.asarray(lentil.zernike_remove(r, mask, modes, rho=rho, theta=theta), dtype=float)
-            res['fit_y'] = np.asarray(lentil.zernike_fit(y, mask, modes, True, rho, theta), dtype=float)
-            res['input_changed'] = not np.array_equal(y, y0)
+            res['fit_y'] = np.asarray(lentil.zernike_fit(ya, mask, modes, True, rho, theta), dtype=float)
+            res['input_changed'] = not np.array_equal(np.asarray(ya), y0)
             return res
     except Exception as e:
         # np.linalg.LinAlgError is a ValueError; the property does not pin the error class any further
@@ -724,7 +825,15 @@ def sum_scale(w, B):
     return max(float(sum(abs(x) * float(np.max(np.abs(b))) for x, b in zip(w, B))), 1e-300)
 
 
+def lone_theta_refused(c, impl):
+    """theta without rho is silently replaced by the default coordinates today; refusing it with the ValueError the
+    code documents for half-specified coordinates would be just as good - neither the property nor the docs pin it"""
+    return (c.get('forms') or {}).get('crd_form') == 'theta_only' and impl.get('err') == 'ValueError'
+
+
 def compare(c, impl, model):
+    if c['op'] != 'history' and lone_theta_refused(c, impl):
+        return None
     if c['op'] == 'history':
         for i, (st, sub, im, mo) in enumerate(zip(c['steps'], substeps(c), impl['steps'], model['steps'])):
             m = compare(sub, im, mo)
@@ -759,7 +868,7 @@ def compare(c, impl, model):
 def pure(c):
     """the OPD of a fit / remove case consists of the requested modes only"""
     return (not c.get('noise') and not any(fr(e) != 0 for e in (c.get('extra') or []))
-            and len(set(c['modes'])) == len(c['modes']))
+            and len(set(c['modes'])) == len(c['modes']) and not (c.get('forms') or {}).get('opd_dtype'))
 
 
 def oracle(c, impl):
@@ -769,7 +878,7 @@ def oracle(c, impl):
             if m:
                 return f'{step_label(i, st)}: {m}'
         return None
-    if c.get('expect_error') or c.get('opd_shape'):
+    if c.get('expect_error') or c.get('opd_shape') or lone_theta_refused(c, impl):
         return None          # the property does not speak about malformed calls; the tie compares the error kinds
     if 'err' in impl:
         return f'zernike_{c["op"]} (or zernike_compose preparing its input) raised {impl["err"]} on a well-formed call'
